@@ -778,6 +778,11 @@ fn run_case(rep: &mut Report, srv: &mut Srv, cal: &Cal, c: &Case, class: &str, s
         let main = match main { Some(m) => m, None => return Ok(()) };
         if main.reset == c.delta { return Err(format!("asked for a {} and got the other kind", if c.delta { "delta" } else { "reset" })) }
         chunk_discipline(rep, &main.resp, class);
+        if !main.ok {
+            // the violation is recorded; where the chunk boundary fell in a wrong document is of no interest
+            rep.trace(PID);
+            return Ok(())
+        }
         // item sequence as planned?  (interleaving of the change set)
         if attempt == 0 {
             if let Some(d) = srv.fx.history.read().delta_since(Serial::from(from)) {
@@ -800,7 +805,10 @@ fn run_case(rep: &mut Report, srv: &mut Srv, cal: &Cal, c: &Case, class: &str, s
             Some((i, ends)) => {
                 // planned token index -> real token index: the filler items (count filler) all sit in
                 // front of their model item, which is at or before the boundary token
-                if ends.len() < toks.len() { return Err("fewer tokens in the body than planned".into()) }
+                if ends.len() < toks.len() {
+                    last_note = format!("attempt {attempt}: {} tokens in the body, {} planned", ends.len(), toks.len());
+                    break
+                }
                 let real_b = b + (ends.len() - toks.len());
                 if i == real_b {
                     st.realised += 1;
@@ -1135,8 +1143,12 @@ pub fn main(args: &Args) -> i32 {
 
     if !tool_errors.is_empty() {
         eprintln!("vh jsondelta: {}", tool_errors.join("; "));
-        rep.write(args);
-        return 2
+        rep.note(PID, "tool_errors", json!(tool_errors));
+        // violations already found on concrete inputs stand; without any, the run is void
+        if rep.violations(PID) == 0 {
+            rep.write(args);
+            return 2
+        }
     }
     rep.write(args)
 }
